@@ -445,7 +445,7 @@ func isoCase(t *testing.T, sc Script) (viol string, nt bool, labels map[string]i
 func TestC03Isolation(t *testing.T) {
 	col := NewCollector("C03", "H", genRule+"2-3 sessions alive at once, connections that never join, switch and come back, ids that exist only in other sessions (entity/participant/type ids coincide across sessions), session ids reused after their session ended; oracle (a) reference model: nothing a connection sends shows up in a session it is not in; (b) differential: for every session instance T the history is re-run on a fresh server with only the stints of connections while they are in T (a switch away becomes a close) and every stint's normalised message stream must be identical (session ids masked); non-trivial = distinct script with >=2 sessions alive at once, >=1 switch and >=1 request naming an id that exists only in another session")
 	t.Cleanup(col.Write)
-	p := prof("c03", map[Op]int{OpJoin: 14, OpClose: 4, OpEntityAdd: 14, OpEntityDel: 8, OpPose: 8, OpTick: 8, OpReceipt: 0, OpLatency: 0, OpPingResp: 0})
+	p := prof("c03", map[Op]int{OpJoin: 14, OpClose: 4, OpEntityAdd: 14, OpEntityDel: 8, OpPose: 8, OpTick: 8, OpReceipt: 0, OpLatency: 0, OpPingResp: 0, OpQuad: 5, OpGround: 4, OpRegion: 4, OpDebug: 2})
 	if rp := os.Getenv("VERIF_REPLAY"); rp != "" {
 		sc, err := loadReplay(rp)
 		if err != nil {
